@@ -26,6 +26,8 @@ def signature(f):
     if d.get("kind") == "trace-rejected":
         return "cycles trace-rejected %s" % ev.get("ev")
     c = f.get("case") or {}
+    if f.get("family") == "aliaschain":
+        return "aliaschain %s %s" % (d.get("kind"), d.get("what", ""))
     return "cycles %s family=%s" % (d.get("kind"), c.get("family"))
 
 
@@ -35,6 +37,9 @@ def run(ctx):
     ctx.tlc("MC_CyclesGen", "MC_CyclesGen_contain_" + t, replay="cycles", coverage=False)
     ctx.tlc("MC_CyclesGen", "MC_CyclesGen_alias_" + t, replay="cycles", coverage=False)
     ctx.tlc("MC_CyclesGen", "MC_CyclesGen_inherit_" + t, replay="cycles", coverage=False, case_timeout_ms=20000)
+    # alias chains spread over two modules (every link named bare or qualified, every chain function incl. loops): the loop
+    # verdict must not depend on where a link is looked up (the family of C03)
+    ctx.tlc("MC_AliasChain", "MC_AliasChain_" + t, replay="aliaschain", coverage=False)
     n = 200 if ctx.quick else 20000
     ctx.tlc("MC_CyclesGen", "MC_CyclesGen_sim", replay="cycles", simulate={"num": n, "depth": 15}, label="MC_CyclesGen_sim")
     trace = ctx.collect_events("cycles")
